@@ -14,7 +14,7 @@ LEVEL = "exploration"
 RULE = (
     "case = tree (flat or with 1-4 sibling / chained child histories) sealed by the same command sequence at a baseline "
     "location and at 3-5 variants drawn from {parent named ascmhl, parent matching a -i pattern, deep parent, non-ASCII / "
-    "spaced parent, trailing slash, relative invocation 'root' | './root/' | '.', permuted OS listing (seeded)}; class = "
+    "spaced parent, trailing slash, doubled trailing separators, relative invocation 'root' | './root/' | '.' | '..' from a sub folder, ROOT/sub/.., permuted OS listing (seeded)}; class = "
     "(variant class, nested, distinct listing permutation observed)"
 )
 ASSUMPTIONS = [
